@@ -251,28 +251,33 @@ Definition ex_exited (r : result) : bool := match r with Exited _ => true | _ =>
 Example ex_r1_exited : ex_exited ex_r1 = true.
 Proof. vm_compute. reflexivity. Qed.
 
+Example ex_first_switch : exists m1, exec ex_la swap_code (w_m ex_w0) = Exited m1.
+Proof.
+  replace (w_m ex_w0) with ex_m0 by reflexivity. fold ex_r1.
+  pose proof ex_r1_exited as X1. destruct ex_r1 as [m1| |]; try discriminate X1. eauto.
+Qed.
+
 Example ex_two_switches_reachable : exists w2,
   wreach ex_la ex_L ex_w0 w2 /\ w_cur w2 = 0%nat /\ rg (w_out w2 1) RBX = 201.
 Proof.
-  pose proof ex_r1_exited as X1.
-  destruct ex_r1 as [m1| |] eqn:E1; try discriminate X1. clear X1.
+  destruct ex_first_switch as [m1 E1].
   set (w1 := {| w_m := m1; w_cur := 1;
-                w_out := upd (w_out ex_w0) 0%nat (set_rip ex_m0 (ex_la resume_label)) |}).
+                w_out := upd (w_out ex_w0) (w_cur ex_w0) (set_rip (w_m ex_w0) (ex_la resume_label)) |}).
   assert (R1 : wreach ex_la ex_L ex_w0 w1).
-  { eapply wr_step; [apply wr_init|]. apply (ws_switch ex_la ex_L ex_w0 1 m1).
-    - exact (proj2 ex_inv0).
-    - cbn [ex_w0 w_m]. unfold ex_r1 in E1. exact E1. }
+  { eapply wr_step; [apply wr_init|].
+    exact (ws_switch ex_la ex_L ex_w0 1 m1 (proj2 ex_inv0) E1). }
   (* context 1 computes: new register values, deeper rsp; memory untouched *)
   set (mu := ex_call (mm m1) (69592 - 64) 1 0 200).
   set (w1u := {| w_m := mu; w_cur := w_cur w1; w_out := w_out w1 |}).
   assert (R1u : wreach ex_la ex_L ex_w0 w1u).
-  { eapply wr_step; [exact R1|]. apply (ws_user ex_la ex_L w1 mu). intros c Hc Hn. split; reflexivity || auto. }
+  { eapply wr_step; [exact R1|]. apply (ws_user ex_la ex_L w1 mu).
+    intros c Hc Hn. split; [reflexivity | intros; reflexivity]. }
   assert (P : switch_pre ex_L w1u 0).
   { unfold switch_pre. cbn [ex_L live lo hi slot w1u w1 w_m w_cur mu ex_call rg mm].
     concrete_operands. cbn [upd_reg reg_eqb].
     repeat split; try lia; try reflexivity; try (vm_compute; reflexivity). }
   destruct (swap_sequence ex_la ex_L ex_w0 w1u 0 ex_layout_ok (proj1 ex_inv0) R1u P)
     as [_ [m2 [E2 _]]].
-  eexists. split; [eapply wr_step; [exact R1u | apply (ws_switch ex_la ex_L w1u 0 m2 P E2)]|].
+  eexists. split; [eapply wr_step; [exact R1u | exact (ws_switch ex_la ex_L w1u 0 m2 P E2)]|].
   split; [reflexivity|]. vm_compute. reflexivity.
 Qed.
